@@ -40,7 +40,7 @@ pub fn c13_prefix_v4() {
 
 // ---------------------------------------------------------------- native driver (cfg(verif_replay))
 #[cfg(all(test, verif_replay))]
-mod driver {
+pub(crate) mod driver {
     use super::*;
     use serde_json::{json, Map, Value};
 
@@ -132,7 +132,7 @@ mod driver {
         p
     }
 
-    fn build(case: &Value) -> IPDiversityEnforcer {
+    pub(crate) fn build(case: &Value) -> IPDiversityEnforcer {
         let mut e = IPDiversityEnforcer::new(config(case));
         e.set_network_size(u(case, "network_size") as usize);
         let p = probes(case);
@@ -162,7 +162,7 @@ mod driver {
         e
     }
 
-    fn observe(e: &IPDiversityEnforcer, case: &Value, prefix: &str, out: &mut Map<String, Value>) {
+    pub(crate) fn observe(e: &IPDiversityEnforcer, case: &Value, prefix: &str, out: &mut Map<String, Value>) {
         let p = probes(case);
         let mut put = |k: String, v: Option<&usize>| {
             out.insert(k, v.map(|c| json!(*c as u64)).unwrap_or(Value::Null));
